@@ -85,28 +85,56 @@ def gen_history(r, layout, n, uniq):
     return hist
 
 
+def _san(w):
+    """replace delimiter bytes inside a 16-bit word"""
+    hi, lo = w >> 8, w & 0xFF
+    hi = hi - 1 if hi in (0x7B, 0x7D) else hi
+    lo = lo - 1 if lo in (0x7B, 0x7D) else lo
+    return (hi << 8) | lo
+
+
 def make_frame(framing, uid, m, tid, r=None):
-    """request frame by the reference builder; for the binary framing bump a value until the frame is delimiter free"""
-    for _ in range(50):
+    """request frame by the reference builder; for the binary framing the message is nudged until the frame holds no
+    delimiter byte (the binary framer cannot receive such frames: finding binary-delimiter-in-body).  Returns (m, None)
+    with m unchanged when that is impossible (e.g. the unit id itself is a delimiter)."""
+    f = ADU.build(framing, uid, S.encode(m), tid=tid)
+    if framing != 'binary' or not any(b in (0x7B, 0x7D) for b in f[1:-1]):
+        return m, f
+    orig = m
+    if uid in (0x7B, 0x7D) or m['fc'] in (0x7B, 0x7D):
+        return orig, None
+    m = dict(m)
+    for step in range(300):
+        for k in ('address', 'value', 'count', 'and_mask', 'or_mask', 'read_address', 'read_count', 'write_address'):
+            if k in m and isinstance(m[k], int) and not (k == 'value' and m['fc'] == 5):
+                m[k] = _san(m[k])
+        if 'registers' in m:
+            m['registers'] = [_san(x) for x in m['registers']]
+        if 'data' in m:
+            m['data'] = [_san(x) for x in m['data']]
         f = ADU.build(framing, uid, S.encode(m), tid=tid)
-        if framing != 'binary' or not any(b in (0x7B, 0x7D) for b in f[1:-1]):
+        if not any(b in (0x7B, 0x7D) for b in f[1:-1]):
             return m, f
-        m = dict(m)
-        if 'value' in m and m['fc'] == 6:
-            m['value'] = (m['value'] + 1) & 0xFFFF
-        elif 'registers' in m:
-            m['registers'] = [(x + 1) & 0xFFFF for x in m['registers']]
-        elif 'or_mask' in m:
+        # only the CRC (or a byte count) still holds a delimiter: nudge one free field
+        if 'or_mask' in m:
             m['or_mask'] = (m['or_mask'] + 1) & 0xFFFF
-        elif 'count' in m:
-            m['count'] = m['count'] % 120 + 1
+        elif m['fc'] == 6:
+            m['value'] = (m['value'] + 1) & 0xFFFF
+        elif 'registers' in m and m['registers']:
+            m['registers'] = m['registers'][:-1] + [(m['registers'][-1] + 1) & 0xFFFF]
+        elif 'data' in m and m['data']:
+            m['data'] = m['data'][:-1] + [(m['data'][-1] + 1) & 0xFFFF]
         elif 'bits' in m:
-            m['bits'] = list(m['bits']) + [True]
+            m['bits'] = [not m['bits'][0]] + list(m['bits'][1:]) if step % 2 else list(m['bits']) + [True]
+        elif 'count' in m:
+            m['count'] = m['count'] % 100 + 1
+        elif 'read_count' in m:
+            m['read_count'] = m['read_count'] % 100 + 1
         elif 'address' in m:
             m['address'] = (m['address'] + 1) & 0xFFFF
         else:
-            return m, None
-    return m, None
+            return orig, None
+    return orig, None
 
 
 def check_direct(run, case):
